@@ -75,13 +75,25 @@ structure InvA (c : Cfg) (s : St) (h a : Nat) : Prop where
   m3 : 0 < s.mem.keepMax → s.mem.floorState ≠ 0
   /-- exactly the persisted bloom windows that are complete and not entirely below the durable floor -/
   aggIff : ∀ w, s.db.agg w = true ↔ (a / numBlocksPerFilter ≤ w ∧ (w + 1) * numBlocksPerFilter ≤ h + 1)
+  /-- the BlockHashLag window: the headers of the `blockHashLag` blocks below the durable floor survive
+  (`get_block_hash` of a block at/above the floor reads the header `blockHashLag` below it) -/
+  hdrLag : ∀ n, n ≤ h → a ≤ n + blockHashLag → s.db.has .hdr n = true
+  /-- (repaired procedure) below the durable floor the per-transaction lookups, the L1-message lookups and the
+  legacy history entries are gone -/
+  lowGone : c.fixed = true → ∀ n, n < a →
+    (s.db.has .txl n = false ∧ s.db.has .l1m n = false ∧ s.db.has .hist n = false)
+
+/-- The min-age invariant: every block below the floor, and every block below the sample the pruner
+keeps, is OLDER than the minimum age (timestamp before the cut-off `now - minAge`). -/
+def AgeA (c : Cfg) (s : St) (a : Nat) : Prop :=
+  (∀ n, n < max a s.mem.keepMax → c.ts n < s.cutoff) ∧ (∀ i, i < s.mem.sampled.toNat → c.ts i < s.cutoff)
 
 /-- The invariant. -/
 def Inv (c : Cfg) (s : St) : Prop :=
   match s.db.height with
   | none => ((∀ i n, s.db.has i n = false) ∧ ∀ w, s.db.agg w = false) ∧ s.job = .idle ∧ s.mem.keepMax = 0 ∧
-      s.mem.floorState.toNat ≤ 1
-  | some h => ∃ a, InvA c s h a
+      s.mem.floorState.toNat ≤ 1 ∧ s.mem.sampled = 0
+  | some h => ∃ a, InvA c s h a ∧ (Mono c.ts → c.minAge = true → AgeA c s a)
 
 theorem oldest_of_inv {c : Cfg} {s : St} {h a : Nat} (hh : s.db.height = some h) (I : InvA c s h a) :
     oldest s.db = some a := by
@@ -148,7 +160,9 @@ theorem InvA.congr {c : Cfg} {s s' : St} {h a : Nat} (I : InvA c s h a)
           m1 := by rw [h3, h4]; exact I.m1
           m2 := by rw [h3, h4]; exact I.m2
           m3 := by rw [h3, h4]; exact I.m3
-          aggIff := by rw [h5]; exact I.aggIff }
+          aggIff := by rw [h5]; exact I.aggIff
+          hdrLag := by rw [h1]; exact I.hdrLag
+          lowGone := by rw [h1]; exact I.lowGone }
 
 /-! ### store -/
 
@@ -228,6 +242,16 @@ theorem inv_store {c : Cfg} {s : St} {h a : Nat} (hh : s.db.height = some h) (I 
       by_cases h2 : (w + 1) * 8192 ≤ h + 1
       · exact Or.inr ((I.aggIff w).mpr (by unfold numBlocksPerFilter; omega))
       · left; omega
+  · intro n hn ha
+    simp only [storeBlock, Bool.or_eq_true, beq_iff_eq]
+    by_cases h1 : n = h + 1
+    · exact Or.inl h1
+    · exact Or.inr (I.hdrLag n (by omega) ha)
+  · intro hf n hn
+    have hl := I.lowGone hf n hn
+    have := I.ale
+    have hne : (n == h + 1) = false := by simp; omega
+    simp only [storeBlock, hne, Bool.false_or]; exact hl
 
 theorem inv_store_empty {c : Cfg} {s : St} (hh : s.db.height = none)
     (I : ((∀ i n, s.db.has i n = false) ∧ ∀ w, s.db.agg w = false) ∧ s.job = .idle ∧ s.mem.keepMax = 0 ∧
@@ -266,6 +290,9 @@ theorem inv_store_empty {c : Cfg} {s : St} (hh : s.db.height = none)
     simp only [storeBlock, hag, Bool.or_false, Bool.and_eq_true, decide_eq_true_eq, beq_iff_eq]
     unfold numBlocksPerFilter
     omega
+  · intro n hn _
+    simp only [storeBlock, he, Bool.or_false, beq_iff_eq]; omega
+  · intro _ n hn; omega
 
 /-! ### revert -/
 
@@ -346,6 +373,12 @@ theorem inv_revert {c : Cfg} {s : St} {h a : Nat} (hh : s.db.height = some h) (I
       by_cases hb : (h + 1) % 8192 = 0
       · right; omega
       · left; exact hb
+  · intro n hn ha
+    simp only [Bool.and_eq_true, bne_iff_ne, ne_eq]
+    exact ⟨by omega, I.hdrLag n (by omega) ha⟩
+  · intro hf n hn
+    have hl := I.lowGone hf n hn
+    simp [hl.1, hl.2.1, hl.2.2]
 
 /-! ### pruneUpto up to the first batch -/
 
@@ -378,7 +411,9 @@ theorem inv_startPrune {c : Cfg} {s : St} {h a : Nat} (hh : s.db.height = some h
              keepIn := ?_, h2nLow := ?_
              carve := by rw [e1]; exact I.carve
              jobWf := ?_, keepLe := ?_, m1 := ?_, m2 := ?_, m3 := fun _ => hne
-             aggIff := by rw [e1']; exact I.aggIff }
+             aggIff := by rw [e1']; exact I.aggIff
+             hdrLag := by rw [e1]; exact I.hdrLag
+             lowGone := by rw [e1]; exact I.lowGone }
     · intro n ha hn hd
       rw [e1]
       apply I.keepIn n ha hn
@@ -522,6 +557,9 @@ theorem inv_flush_orig {c : Cfg} {s : St} {h a st en cu : Nat} {fi : Bool} (k : 
   · exact I.m2
   · exact I.m3
   · exact I.aggIff
+  · intro n hn ha; show (s.db.del _).has .hdr n = true
+    rw [hsame .hdr (by simp)]; exact I.hdrLag n hn ha
+  · intro hf; rw [hfix] at hf; cases hf
 
 /-- One written batch of the REPAIRED procedure: the durable floor moves to the loop cursor. -/
 theorem inv_flush_fixed {c : Cfg} {s : St} {h a st en cu : Nat} {fi : Bool} (k : Nat)
@@ -614,6 +652,16 @@ theorem inv_flush_fixed {c : Cfg} {s : St} {h a st en cu : Nat} {fi : Bool} (k :
       simp only [Bool.not_false, Bool.and_true]
       rw [h1]
       unfold numBlocksPerFilter at *; omega
+  · intro n hn ha; show (s.db.del _).has .hdr n = true
+    have hh := I.hdrLag n hn (by omega)
+    have : ¬ n < headerEnd (cu + k) := by rw [lt_headerEnd_iff]; omega
+    simp [Db.del, flushDel, hfix, Bk.hashKeyed, rangeDel, Bk.numRange, bk_beq, hh, this]
+  · intro hf n hn
+    by_cases hlt : n < a
+    · have hl := I.lowGone hf n hlt
+      simp [Db.del, Db.pruneAgg, hl.1, hl.2.1, hl.2.2]
+    · have : cu ≤ n := by omega
+      simp [Db.del, Db.pruneAgg, flushDel, Bk.hashKeyed, this, hn]
 
 /-- End of a prune call (completed or cancelled) in the ORIGINAL procedure: the trailing range delete. -/
 theorem inv_finish_orig {c : Cfg} {s : St} {h a st en cu : Nat} (m' : Mem)
@@ -692,6 +740,11 @@ theorem inv_finish_orig {c : Cfg} {s : St} {h a st en cu : Nat} (m' : Mem)
       simp only [Bool.not_false, Bool.and_true]
       rw [h1']
       unfold numBlocksPerFilter at *; omega
+  · intro n hn ha; show (s.db.del _).has .hdr n = true
+    have hh := I.hdrLag n hn (by omega)
+    have : ¬ n < headerEnd cu := by rw [lt_headerEnd_iff]; omega
+    simp [Db.del, rangeDel, Bk.numRange, bk_beq, hh, this]
+  · intro hf; rw [hfix] at hf; cases hf
 
 /-- Leaving a prune without touching the database: end of a call in the REPAIRED procedure, or a write
 error / crash at a point where nothing half-done is on disk. -/
@@ -735,7 +788,7 @@ theorem inv_leave {c : Cfg} {s : St} {h a st en cu : Nat} {fi : Bool} (m' : Mem)
           carve := I.carve
           jobWf := by show jobOk c _ a; unfold jobOk; trivial
           keepLe := by show m'.keepMax ≤ h; have := I.keepLe; omega
-          m1 := hm1, m2 := hm2, m3 := hm3, aggIff := I.aggIff }
+          m1 := hm1, m2 := hm2, m3 := hm3, aggIff := I.aggIff, hdrLag := I.hdrLag, lowGone := I.lowGone }
 
 theorem inv_leave_idle {c : Cfg} {s : St} {h a : Nat} (m' : Mem)
     (I : InvA c s h a) (hjob : s.job = .idle)
@@ -751,14 +804,14 @@ theorem inv_leave_idle {c : Cfg} {s : St} {h a : Nat} (m' : Mem)
     carve := I.carve
     jobWf := by show jobOk c _ a; unfold jobOk; trivial
     keepLe := by show m'.keepMax ≤ h; have := I.keepLe; omega
-    m1 := hm1, m2 := hm2, m3 := hm3, aggIff := I.aggIff }
+    m1 := hm1, m2 := hm2, m3 := hm3, aggIff := I.aggIff, hdrLag := I.hdrLag, lowGone := I.lowGone }
 
 /-- The memory of a fresh process satisfies the memory clauses. -/
 theorem restartMem_ok {c : Cfg} {s : St} {h a : Nat} (hh : s.db.height = some h) (I : InvA c s h a)
-    (seed : Bool) :
-    (restartMem s.db seed).keepMax = 0 ∧
-    ((restartMem s.db seed).floorState ≠ 0 → a ≤ (restartMem s.db seed).floorState.toNat) ∧
-    (restartMem s.db seed).floorState.toNat ≤ max a 1 := by
+    (cut : Nat) (seed : Bool) :
+    (restartMem c s.db cut seed).keepMax = 0 ∧
+    ((restartMem c s.db cut seed).floorState ≠ 0 → a ≤ (restartMem c s.db cut seed).floorState.toNat) ∧
+    (restartMem c s.db cut seed).floorState.toNat ≤ max a 1 := by
   have hlo : (oldest s.db).getD 0 = a := by rw [oldest_of_inv hh I]; rfl
   have ha : a < 2 ^ 64 := by have := I.hlt; have := I.ale; omega
   unfold restartMem
@@ -770,6 +823,86 @@ theorem restartMem_ok {c : Cfg} {s : St} {h a : Nat} (hh : s.db.height = some h)
     rw [ofNat_toNat_of_lt a ha] at this
     simp only [if_true]
     refine ⟨trivial, fun _ => by omega, by omega⟩
+
+/-! ### the minimum age -/
+
+theorem age_keep {c : Cfg} {s s' : St} {a a' : Nat} (h1 : max a' s'.mem.keepMax ≤ max a s.mem.keepMax)
+    (h2 : s'.mem.sampled = s.mem.sampled) (h3 : s.cutoff ≤ s'.cutoff) (A : AgeA c s a) : AgeA c s' a' := by
+  refine ⟨fun n hn => ?_, fun i hi => ?_⟩
+  · have := A.1 n (by omega); omega
+  · rw [h2] at hi; have := A.2 i hi; omega
+
+/-- `sampleHeight` keeps the sample honest: on non-decreasing timestamps every block below the new sample is
+older than the cut-off, provided every block below the old one was. -/
+theorem sampleNode_age {c : Cfg} {d : Db} {h : Nat} (hm : Mono c.ts) (hh : d.height = some h) (hlt : h < 2 ^ 64)
+    (cut : Nat) (sampled : UInt64) (hbelow : ∀ i, i < sampled.toNat → c.ts i < cut) :
+    ∀ i, i < (sampleNode c d cut sampled).toNat → c.ts i < cut := by
+  intro i hi
+  unfold sampleNode at hi
+  rw [hh] at hi
+  simp only at hi
+  split at hi
+  · rw [ofNat_toNat_of_lt h hlt] at hi; exact hbelow i (by omega)
+  · rename_i hle
+    split at hi
+    · have spec := findOldest_spec c.ts sampled.toNat h cut hm hbelow
+      unfold sampleHeight at hi
+      cases hf : findOldestAtOrAfter c.ts sampled.toNat h cut with
+      | none =>
+        rw [hf] at hi spec
+        rw [ofNat_toNat_of_lt h hlt] at hi
+        exact spec i (by omega)
+      | some r =>
+        rw [hf] at hi spec
+        simp only at hi spec
+        rw [ofNat_toNat_of_lt r (by omega)] at hi
+        exact spec.2.2.2 i hi
+    · exact hbelow i hi
+
+theorem seedSample_age {c : Cfg} {s : St} {h a : Nat} (hm : Mono c.ts) (hh : s.db.height = some h)
+    (I : InvA c s h a) (cut : Nat) (hbelow : ∀ i, i < a → c.ts i < cut) :
+    ∀ i, i < (seedSample c s.db cut).toNat → c.ts i < cut := by
+  intro i hi
+  unfold seedSample at hi
+  split at hi
+  · rw [oldest_of_inv hh I] at hi
+    simp only at hi
+    have ha : a < 2 ^ 64 := by have := I.hlt; have := I.ale; omega
+    exact sampleNode_age hm hh I.hlt cut (UInt64.ofNat a) (by rw [ofNat_toNat_of_lt a ha]; exact hbelow) i hi
+  · exact absurd hi (by simp)
+
+theorem migKeep_some_le (c : Cfg) (hma : c.minAge = true) (h : Nat) (l1 f keep : UInt64)
+    (hk : migKeep c h l1 (some f) = some keep) : keep.toNat ≤ f.toNat := by
+  unfold migKeep at hk
+  simp only [hma, if_true] at hk
+  generalize (if l1.toNat ≤ h then l1 else UInt64.ofNat h) = pivot at hk
+  split at hk
+  · cases hk
+  · simp at hk; subst hk; rw [umin_toNat]; omega
+
+/-- The migration's own cut-off respects the minimum age. -/
+theorem migKeep_age {c : Cfg} (hm : Mono c.ts) (hma : c.minAge = true) (h : Nat) (hlt : h < 2 ^ 64) (l1 keep : UInt64)
+    (cut : Nat) (hk : migKeep c h l1 (migMinAgeFloor c h l1 cut) = some keep) :
+    ∀ n, n < keep.toNat → c.ts n < cut := by
+  intro n hn
+  have hb := migKeep_bound c h hlt l1 _ keep hk
+  have spec := findOldest_spec c.ts 0 (if l1.toNat ≤ h then l1.toNat else h) cut hm (fun i hi => absurd hi (by omega))
+  have hp : (if l1.toNat ≤ h then l1.toNat else h) = min l1.toNat h := by split <;> omega
+  cases hf : findOldestAtOrAfter c.ts 0 (if l1.toNat ≤ h then l1.toNat else h) cut with
+  | none =>
+    rw [hf] at spec
+    exact spec n (by omega)
+  | some r =>
+    rw [hf] at spec
+    simp only at spec
+    have hr : r < 2 ^ 64 := by
+      have := spec.2.1; have := l1.toNat_lt; omega
+    have he : migMinAgeFloor c h l1 cut = some (UInt64.ofNat r) := by
+      unfold migMinAgeFloor; simp only [hf, Option.map_some]
+    rw [he] at hk
+    have := migKeep_some_le c hma h l1 _ keep hk
+    rw [ofNat_toNat_of_lt r hr] at this
+    exact spec.2.2.2 n (by omega)
 
 /-! ### the history-pruner migration -/
 
@@ -850,33 +983,65 @@ theorem inv_migrate {c : Cfg} {s : St} {h a : Nat} (I : InvA c s h a) (hjob : s.
       simp only [Bool.not_false, Bool.and_true]
       rw [h1']
       unfold numBlocksPerFilter at *; omega
+  · intro n hn hkn
+    show (s.db.has .hdr n && !decide (n < headerEnd keep)) = true
+    have hh := I.hdrLag n hn (by omega)
+    have : ¬ n < headerEnd keep := by rw [lt_headerEnd_iff]; omega
+    simp [hh, this]
+  · intro _ n hn
+    have : ¬ keep ≤ n := by omega
+    simp [migrateDb, Db.pruneAgg, this]
 
-theorem step_store_mem (c : Cfg) (s : St) : (step c s .store).1.mem = s.mem := by
+theorem step_store_mem (c : Cfg) (s : St) :
+    (step c s .store).1.mem = s.mem ∧ (step c s .store).1.cutoff = s.cutoff := by
   simp only [step]
   cases s.db.height with
-  | none => rfl
-  | some h => simp only []; split <;> rfl
+  | none => exact ⟨rfl, rfl⟩
+  | some h => simp only []; split <;> exact ⟨rfl, rfl⟩
 
-theorem step_revert_mem (c : Cfg) (s : St) : (step c s .revert).1.mem = s.mem := by
+theorem step_revert_mem (c : Cfg) (s : St) :
+    (step c s .revert).1.mem = s.mem ∧ (step c s .revert).1.cutoff = s.cutoff := by
   simp only [step]
   cases s.db.height with
-  | none => rfl
-  | some h => simp only []; split <;> rfl
+  | none => exact ⟨rfl, rfl⟩
+  | some h => simp only []; split <;> exact ⟨rfl, rfl⟩
 
 theorem startPrune_mem (s : St) (keep : UInt64) :
     (startPrune s keep).1.mem.keepMax = max s.mem.keepMax keep.toNat ∧
-    (startPrune s keep).1.mem.floorState = raiseForPrune s.mem.floorState keep := by
+    (startPrune s keep).1.mem.floorState = raiseForPrune s.mem.floorState keep ∧
+    (startPrune s keep).1.cutoff = s.cutoff ∧
+    ((startPrune s keep).1.mem.sampled = s.mem.sampled ∨
+      ∃ st, oldest s.db = some st ∧ (startPrune s keep).1.mem.sampled = umax s.mem.sampled (UInt64.ofNat st)) := by
   unfold startPrune
-  cases oldest s.db with
-  | none => exact ⟨rfl, rfl⟩
+  cases ho : oldest s.db with
+  | none => exact ⟨rfl, rfl, rfl, Or.inl rfl⟩
   | some st =>
     simp only []
     split
-    · exact ⟨rfl, rfl⟩
-    · split <;> exact ⟨rfl, rfl⟩
+    · exact ⟨rfl, rfl, rfl, Or.inr ⟨st, rfl, rfl⟩⟩
+    · split <;> exact ⟨rfl, rfl, rfl, Or.inl rfl⟩
 
 theorem raiseForPrune_ge (st keep : UInt64) : st.toNat ≤ (raiseForPrune st keep).toNat := by
   rw [raiseForPrune_toNat]; split <;> omega
+
+/-- `pruneUpto(keep)` keeps the min-age invariant when every block below `keep` is old enough. -/
+theorem age_startPrune {c : Cfg} {s : St} {h a : Nat} (hh : s.db.height = some h) (I : InvA c s h a)
+    (keep : UInt64) (hold : ∀ n, n < keep.toNat → c.ts n < s.cutoff) (A : AgeA c s a) :
+    AgeA c (startPrune s keep).1 a := by
+  obtain ⟨m1, _, m3, m4⟩ := startPrune_mem s keep
+  refine ⟨fun n hn => ?_, fun i hi => ?_⟩
+  · rw [m3]; rw [m1] at hn
+    by_cases h1 : n < max a s.mem.keepMax
+    · exact A.1 n h1
+    · exact hold n (by omega)
+  · rw [m3]
+    rcases m4 with e | ⟨st, e1, e2⟩
+    · rw [e] at hi; exact A.2 i hi
+    · rw [oldest_of_inv hh I] at e1; cases e1
+      rw [e2, umax_toNat, ofNat_toNat_of_lt a (by have := I.hlt; have := I.ale; omega)] at hi
+      by_cases h1 : i < s.mem.sampled.toNat
+      · exact A.2 i h1
+      · exact A.1 i (by omega)
 
 /-- What one legal step guarantees. -/
 structure StepFacts (c : Cfg) (s : St) (op : Op) : Prop where
@@ -887,7 +1052,7 @@ structure StepFacts (c : Cfg) (s : St) (op : Op) : Prop where
   /-- the durable floor never moves down -/
   loMono : lo s.db ≤ lo (step c s op).1.db
   /-- within one process the shared in-memory floor never moves down -/
-  fsMono : ((∀ seed, op ≠ .crash seed) ∧ ∀ mf u, op ≠ .migrate mf u) →
+  fsMono : ((∀ seed, op ≠ .crash seed) ∧ ∀ u, op ≠ .migrate u) →
     s.mem.floorState.toNat ≤ (step c s op).1.mem.floorState.toNat
 
 theorem facts_some {c : Cfg} {s : St} {op : Op} {h a h' a' : Nat}
@@ -895,16 +1060,20 @@ theorem facts_some {c : Cfg} {s : St} {op : Op} {h a h' a' : Nat}
     (hh' : (step c s op).1.db.height = some h') (IA' : InvA c (step c s op).1 h' a')
     (h1 : a ≤ a') (h2 : a' ≤ max (max a s.mem.keepMax) (allowed c s op))
     (h3 : (step c s op).1.mem.keepMax ≤ max s.mem.keepMax (allowed c s op))
-    (h4 : ((∀ seed, op ≠ .crash seed) ∧ ∀ mf u, op ≠ .migrate mf u) →
-      s.mem.floorState.toNat ≤ (step c s op).1.mem.floorState.toNat) :
+    (h4 : ((∀ seed, op ≠ .crash seed) ∧ ∀ u, op ≠ .migrate u) →
+      s.mem.floorState.toNat ≤ (step c s op).1.mem.floorState.toNat)
+    (hA : Mono c.ts → c.minAge = true → AgeA c (step c s op).1 a') :
     StepFacts c s op := by
   refine ⟨?_, ?_, ?_, h4⟩
-  · unfold Inv; rw [hh']; exact ⟨a', IA'⟩
+  · unfold Inv; rw [hh']; exact ⟨a', IA', hA⟩
   · unfold effFloor; rw [lo_of_inv hh IA, lo_of_inv hh' IA']; omega
   · rw [lo_of_inv hh IA, lo_of_inv hh' IA']; exact h1
 
 theorem lo_empty {d : Db} (h : d.height = none) : lo d = 0 := by
   unfold lo; rw [oldest_empty h]; rfl
+
+theorem seedSample_empty (c : Cfg) {d : Db} (h : d.height = none) (cut : Nat) : seedSample c d cut = 0 := by
+  unfold seedSample; rw [oldest_empty h]; split <;> rfl
 
 /-- Every legal operation preserves the invariant, moves the floor only up and only as far as allowed. -/
 theorem step_facts {c : Cfg} {s : St} (op : Op) (I : Inv c s) (L : Legal c s op) : StepFacts c s op := by
@@ -913,39 +1082,53 @@ theorem step_facts {c : Cfg} {s : St} (op : Op) (I : Inv c s) (L : Legal c s op)
   | none =>
     rw [hh] at I
     simp only at I
-    obtain ⟨⟨he, hag⟩, hj, hk, hf⟩ := I
+    obtain ⟨⟨he, hag⟩, hj, hk, hf, hsm⟩ := I
     have hF : effFloor s = 0 := by unfold effFloor; rw [lo_empty hh, hk]; rfl
     -- steps that leave height, entries, job and the ghost alone
     have same : ∀ (s' : St), (step c s op).1 = s' → s'.db.height = none → s'.db.has = s.db.has →
         s'.db.agg = s.db.agg → s'.job = .idle → s'.mem.keepMax = 0 → s'.mem.floorState.toNat ≤ 1 →
-        (((∀ seed, op ≠ .crash seed) ∧ ∀ mf u, op ≠ .migrate mf u) →
+        s'.mem.sampled = 0 →
+        (((∀ seed, op ≠ .crash seed) ∧ ∀ u, op ≠ .migrate u) →
           s.mem.floorState.toNat ≤ s'.mem.floorState.toNat) → StepFacts c s op := by
-      intro s' e0 e1 e2 e2' e3 e4 e5 e6
+      intro s' e0 e1 e2 e2' e3 e4 e5 e5' e6
       refine ⟨?_, ?_, ?_, ?_⟩
-      · rw [e0]; unfold Inv; rw [e1]; exact ⟨⟨by rw [e2]; exact he, by rw [e2']; exact hag⟩, e3, e4, e5⟩
+      · rw [e0]; unfold Inv; rw [e1]; exact ⟨⟨by rw [e2]; exact he, by rw [e2']; exact hag⟩, e3, e4, e5, e5'⟩
       · rw [e0, hF]; unfold effFloor; rw [lo_empty e1, e4]; simp
       · rw [e0, lo_empty hh]; omega
       · rw [e0]; exact e6
     cases op with
     | store =>
       have := inv_store_empty (c := c) hh ⟨⟨he, hag⟩, hj, hk, hf⟩
+      have hmem := step_store_mem c s
       refine ⟨?_, ?_, ?_, ?_⟩
-      · unfold Inv; rw [this.2.2]; exact ⟨0, this.2.1⟩
+      · unfold Inv; rw [this.2.2]
+        refine ⟨0, this.2.1, fun _ _ => ⟨fun n hn => ?_, fun i hi => ?_⟩⟩
+        · rw [hmem.1, hk] at hn; omega
+        · rw [hmem.1, hsm] at hi; exact absurd hi (by simp)
       · unfold effFloor; rw [lo_of_inv this.2.2 this.2.1]
-        rw [step_store_mem, hk]; simp
+        rw [hmem.1, hk]; simp
       · rw [lo_empty hh]; omega
-      · intro _; rw [step_store_mem]; exact Nat.le_refl _
+      · intro _; rw [hmem.1]; exact Nat.le_refl _
     | revert => obtain ⟨h', h1, _⟩ := L; rw [hh] at h1; cases h1
     | writeL1 n =>
-      exact same ⟨{ s.db with l1 := some n }, s.mem, s.job⟩ rfl hh rfl rfl hj hk hf (fun _ => Nat.le_refl _)
-    | evL1 n => exact same s (by simp only [step, hj, hh]) hh rfl rfl hj hk hf (fun _ => Nat.le_refl _)
-    | evL2 n w => obtain ⟨_, h', h1, _⟩ := L; rw [hh] at h1; cases h1
-    | flush k => exact same s (by simp only [step, hj]) hh rfl rfl hj hk hf (fun _ => Nat.le_refl _)
-    | finish => exact same s (by simp only [step, hj]) hh rfl rfl hj hk hf (fun _ => Nat.le_refl _)
-    | fail => exact same s (by simp only [step, hj]) hh rfl rfl hj hk hf (fun _ => Nat.le_refl _)
+      exact same ⟨{ s.db with l1 := some n }, s.mem, s.job, s.cutoff⟩ rfl hh rfl rfl hj hk hf hsm (fun _ => Nat.le_refl _)
+    | evL1 n => exact same s (by simp only [step, hj, hh]) hh rfl rfl hj hk hf hsm (fun _ => Nat.le_refl _)
+    | evL2 n =>
+      obtain ⟨_, hcl⟩ := L
+      rcases hcl with hcl | ⟨h', h1, _⟩
+      · refine same s ?_ hh rfl rfl hj hk hf hsm (fun _ => Nat.le_refl _)
+        simp only [step, hj]
+        cases hl1 : s.db.l1 with
+        | none => rfl
+        | some l1 => simp [hcl, hh]
+      · rw [hh] at h1; cases h1
+    | flush k => exact same s (by simp only [step, hj]) hh rfl rfl hj hk hf hsm (fun _ => Nat.le_refl _)
+    | finish => exact same s (by simp only [step, hj]) hh rfl rfl hj hk hf hsm (fun _ => Nat.le_refl _)
+    | fail => exact same s (by simp only [step, hj]) hh rfl rfl hj hk hf hsm (fun _ => Nat.le_refl _)
     | crash seed =>
-      refine same ⟨s.db, restartMem s.db seed, .idle⟩ rfl hh rfl rfl rfl rfl ?_ (fun hne => absurd rfl (hne.1 seed))
-      show (restartMem s.db seed).floorState.toNat ≤ 1
+      refine same ⟨s.db, restartMem c s.db s.cutoff seed, .idle, s.cutoff⟩ rfl hh rfl rfl rfl rfl ?_
+        (seedSample_empty c hh _) (fun hne => absurd rfl (hne.1 seed))
+      show (restartMem c s.db s.cutoff seed).floorState.toNat ≤ 1
       unfold restartMem
       simp only [oldest_empty hh, Option.getD_none]
       cases seed with
@@ -954,12 +1137,19 @@ theorem step_facts {c : Cfg} {s : St} (op : Op) (I : Inv c s) (L : Legal c s op)
         have := seedState_zero (UInt64.ofNat 0)
         simp only [if_true]
         simp at this ⊢; omega
-    | sample v =>
-      exact same ⟨s.db, { s.mem with sampled := v }, s.job⟩ rfl hh rfl rfl hj hk hf (fun _ => Nat.le_refl _)
-    | migrate mf u =>
-      refine same ⟨s.db, restartMem s.db true, s.job⟩ (by simp only [step, hj, hh]) hh rfl rfl hj rfl ?_
-        (fun hne => absurd rfl (hne.2 mf u))
-      show (restartMem s.db true).floorState.toNat ≤ 1
+    | tick =>
+      by_cases hma : c.minAge = true
+      · refine same ⟨s.db, { s.mem with sampled := sampleNode c s.db s.cutoff s.mem.sampled }, s.job, s.cutoff⟩
+          (by simp only [step, hma, if_true]) hh rfl rfl hj hk hf ?_ (fun _ => Nat.le_refl _)
+        show sampleNode c s.db s.cutoff s.mem.sampled = 0
+        unfold sampleNode; rw [hh]; exact hsm
+      · exact same s (by simp only [step, hma, Bool.false_eq_true, if_false]) hh rfl rfl hj hk hf hsm (fun _ => Nat.le_refl _)
+    | advance d =>
+      exact same ⟨s.db, s.mem, s.job, s.cutoff + d⟩ rfl hh rfl rfl hj hk hf hsm (fun _ => Nat.le_refl _)
+    | migrate u =>
+      refine same ⟨s.db, restartMem c s.db s.cutoff true, s.job, s.cutoff⟩ (by simp only [step, hj, hh]) hh rfl rfl hj rfl ?_
+        (seedSample_empty c hh _) (fun hne => absurd rfl (hne.2 u))
+      show (restartMem c s.db s.cutoff true).floorState.toNat ≤ 1
       unfold restartMem
       simp only [oldest_empty hh, Option.getD_none]
       have := seedState_zero (UInt64.ofNat 0)
@@ -968,36 +1158,73 @@ theorem step_facts {c : Cfg} {s : St} (op : Op) (I : Inv c s) (L : Legal c s op)
   | some h =>
     rw [hh] at I
     simp only at I
-    obtain ⟨a, IA⟩ := I
+    obtain ⟨a, IA, AG⟩ := I
     -- steps that keep head and durable floor
     have keepH : ∀ s' : St, (step c s op).1 = s' → s'.db.height = some h → InvA c s' h a →
         s'.mem.keepMax ≤ max s.mem.keepMax (allowed c s op) →
-        (((∀ seed, op ≠ .crash seed) ∧ ∀ mf u, op ≠ .migrate mf u) →
-          s.mem.floorState.toNat ≤ s'.mem.floorState.toNat) → StepFacts c s op := by
-      intro s' e0 e1 e2 e3 e4
+        (((∀ seed, op ≠ .crash seed) ∧ ∀ u, op ≠ .migrate u) →
+          s.mem.floorState.toNat ≤ s'.mem.floorState.toNat) →
+        (Mono c.ts → c.minAge = true → AgeA c s a → AgeA c s' a) → StepFacts c s op := by
+      intro s' e0 e1 e2 e3 e4 e5
       exact facts_some hh IA (by rw [e0]; exact e1) (by rw [e0]; exact e2) (Nat.le_refl _) (by omega)
-        (by rw [e0]; exact e3) (by rw [e0]; exact e4)
+        (by rw [e0]; exact e3) (by rw [e0]; exact e4) (by rw [e0]; exact fun hm hma => e5 hm hma (AG hm hma))
     have unchanged : (step c s op).1 = s → StepFacts c s op := fun e =>
-      keepH s e hh IA (by omega) (fun _ => Nat.le_refl _)
+      keepH s e hh IA (by omega) (fun _ => Nat.le_refl _) (fun _ _ A => A)
+    -- a fresh process on the same database (crash, or a migration that has nothing to do)
+    have restarted : ∀ (seed : Bool), (step c s op).1 = ⟨s.db, restartMem c s.db s.cutoff seed, .idle, s.cutoff⟩ →
+        interruptible c s.job → ¬((∀ seed, op ≠ .crash seed) ∧ ∀ u, op ≠ .migrate u) → StepFacts c s op := by
+      intro seed e hI hop
+      obtain ⟨r1, r2, r3⟩ := restartMem_ok hh IA s.cutoff seed
+      have hage : Mono c.ts → c.minAge = true → AgeA c s a →
+          AgeA c ⟨s.db, restartMem c s.db s.cutoff seed, .idle, s.cutoff⟩ a := by
+        intro hm _ A
+        refine ⟨fun n hn => A.1 n ?_, ?_⟩
+        · have : (restartMem c s.db s.cutoff seed).keepMax = 0 := r1
+          simp only [this] at hn; omega
+        · exact seedSample_age hm hh IA s.cutoff (fun i hi => A.1 i (by omega))
+      cases hjob : s.job with
+      | idle =>
+        exact keepH _ e hh
+          ((inv_leave_idle _ IA hjob (by omega) (fun hne => ⟨r2 hne, by omega⟩) (by omega) (by omega)).congr rfl rfl rfl rfl)
+          (by show (restartMem c s.db s.cutoff seed).keepMax ≤ _; omega) (fun hne => absurd hne hop) hage
+      | run st en cu fi =>
+        rw [hjob] at hI
+        exact keepH _ e hh
+          ((inv_leave _ IA hjob hI (by omega) (fun hne => ⟨r2 hne, by omega⟩) (by omega) (by omega)).congr rfl rfl rfl rfl)
+          (by show (restartMem c s.db s.cutoff seed).keepMax ≤ _; omega) (fun hne => absurd hne hop) hage
     cases op with
     | store =>
       have := inv_store hh IA (L h hh)
+      have hmem := step_store_mem c s
       exact facts_some hh IA this.2.2 this.2.1 (Nat.le_refl _) (by omega)
-        (by rw [step_store_mem]; omega) (fun _ => by rw [step_store_mem]; exact Nat.le_refl _)
+        (by rw [hmem.1]; omega) (fun _ => by rw [hmem.1]; exact Nat.le_refl _)
+        (fun hm hma => age_keep (by rw [hmem.1]; exact Nat.le_refl _) (by rw [hmem.1]) (by rw [hmem.2]; exact Nat.le_refl _) (AG hm hma))
     | revert =>
       obtain ⟨h', h1, h2⟩ := L
       rw [hh] at h1; cases h1
       unfold effFloor at h2
       rw [lo_of_inv hh IA] at h2
       have := inv_revert hh IA h2
+      have hmem := step_revert_mem c s
       exact facts_some hh IA this.2.2 this.2.1 (Nat.le_refl _) (by omega)
-        (by rw [step_revert_mem]; omega) (fun _ => by rw [step_revert_mem]; exact Nat.le_refl _)
+        (by rw [hmem.1]; omega) (fun _ => by rw [hmem.1]; exact Nat.le_refl _)
+        (fun hm hma => age_keep (by rw [hmem.1]; exact Nat.le_refl _) (by rw [hmem.1]) (by rw [hmem.2]; exact Nat.le_refl _) (AG hm hma))
     | writeL1 n =>
-      exact keepH ⟨{ s.db with l1 := some n }, s.mem, s.job⟩ rfl hh (IA.congr rfl rfl rfl rfl)
+      exact keepH ⟨{ s.db with l1 := some n }, s.mem, s.job, s.cutoff⟩ rfl hh (IA.congr rfl rfl rfl rfl)
         (by show s.mem.keepMax ≤ _; omega) (fun _ => Nat.le_refl _)
-    | sample v =>
-      exact keepH ⟨s.db, { s.mem with sampled := v }, s.job⟩ rfl hh (IA.congr rfl rfl rfl rfl)
+        (fun _ _ A => age_keep (Nat.le_refl _) rfl (Nat.le_refl _) A)
+    | advance d =>
+      exact keepH ⟨s.db, s.mem, s.job, s.cutoff + d⟩ rfl hh (IA.congr rfl rfl rfl rfl)
         (by show s.mem.keepMax ≤ _; omega) (fun _ => Nat.le_refl _)
+        (fun _ _ A => age_keep (s := s) (Nat.le_refl _) rfl (Nat.le_add_right _ _) A)
+    | tick =>
+      by_cases hma : c.minAge = true
+      · refine keepH ⟨s.db, { s.mem with sampled := sampleNode c s.db s.cutoff s.mem.sampled }, s.job, s.cutoff⟩
+          (by simp only [step, hma, if_true]) hh (IA.congr rfl rfl rfl rfl)
+          (by show s.mem.keepMax ≤ _; omega) (fun _ => Nat.le_refl _) ?_
+        intro hm _ A
+        exact ⟨A.1, sampleNode_age hm hh IA.hlt s.cutoff s.mem.sampled A.2⟩
+      · exact unchanged (by simp only [step, hma, Bool.false_eq_true, if_false])
     | evL1 n =>
       cases hjob : s.job with
       | run st en cu fi => exact unchanged (by simp only [step, hjob])
@@ -1006,48 +1233,71 @@ theorem step_facts {c : Cfg} {s : St} (op : Op) (I : Inv c s) (L : Legal c s op)
         | none => exact unchanged (by simp only [step, hjob, hh, hk])
         | some keep =>
           have hb := l1Keep_bound c _ _ _ _ hk
-          have I0 : InvA c { db := s.db, mem := { s.mem with pending := 0 }, job := .idle } h a :=
+          have I0 : InvA c { s with mem := { s.mem with pending := 0 }, job := .idle } h a :=
             IA.congr rfl hjob.symm rfl rfl
-          have hsp := inv_startPrune (s := { db := s.db, mem := { s.mem with pending := 0 }, job := .idle })
+          have hsp := inv_startPrune (s := { s with mem := { s.mem with pending := 0 }, job := .idle })
             hh I0 rfl keep (by omega) L
-          have hm := startPrune_mem { db := s.db, mem := { s.mem with pending := 0 }, job := .idle } keep
-          refine keepH (startPrune { db := s.db, mem := { s.mem with pending := 0 }, job := .idle } keep).1
-            (by simp only [step, hjob, hh, hk]) (by rw [hsp.2]; exact hh) hsp.1 ?_ ?_
+          have hm := startPrune_mem { s with mem := { s.mem with pending := 0 }, job := .idle } keep
+          refine keepH (startPrune { s with mem := { s.mem with pending := 0 }, job := .idle } keep).1
+            (by simp only [step, hjob, hh, hk]) (by rw [hsp.2]; exact hh) hsp.1 ?_ ?_ ?_
           · rw [hm.1]
             show max s.mem.keepMax keep.toNat ≤ max s.mem.keepMax (allowed c s (.evL1 n))
             simp only [allowed, hh]; omega
-          · intro _; rw [hm.2]; exact raiseForPrune_ge _ _
-    | evL2 n w =>
-      obtain ⟨hseed, h', h1, h2⟩ := L
-      rw [hh] at h1; cases h1
+          · intro _; rw [hm.2.1]; exact raiseForPrune_ge _ _
+          · intro hmo hma A
+            have hks := l1Keep_minAge c s.mem.sampled h n keep hma hk
+            exact age_startPrune (s := { s with mem := { s.mem with pending := 0 }, job := .idle }) hh I0 keep
+              (fun m hmk => A.2 m (by omega)) A
+    | evL2 n =>
+      obtain ⟨hseed, hcl⟩ := L
       cases hjob : s.job with
       | run st en cu fi => exact unchanged (by simp only [step, hjob])
       | idle =>
         cases hl1 : s.db.l1 with
         | none => exact unchanged (by simp only [step, hjob, hl1])
         | some l1 =>
-          cases hg : l2Guard c l1 n with
-          | true => exact unchanged (by simp only [step, hjob, hl1, hg, if_true])
-          | false =>
-            by_cases hp : s.mem.pending + 1 < c.l2PerPrune
-            · exact keepH ⟨s.db, { s.mem with pending := s.mem.pending + 1 }, s.job⟩
-                (by simp only [step, hjob, hl1, hg, Bool.false_eq_true, if_false, hp, if_true]) hh
-                (IA.congr rfl rfl rfl rfl) (by show s.mem.keepMax ≤ _; omega) (fun _ => Nat.le_refl _)
-            · have hb := l2Keep_bound c s.mem.sampled l1 n w hg
-              have I0 : InvA c { db := s.db, mem := { s.mem with pending := 0 }, job := .idle } h a :=
-                IA.congr rfl hjob.symm rfl rfl
-              have hsp := inv_startPrune (s := { db := s.db, mem := { s.mem with pending := 0 }, job := .idle })
-                hh I0 rfl (l2Keep c s.mem.sampled n w) (by omega) hseed
-              have hm := startPrune_mem { db := s.db, mem := { s.mem with pending := 0 }, job := .idle }
-                (l2Keep c s.mem.sampled n w)
-              refine keepH (startPrune { db := s.db, mem := { s.mem with pending := 0 }, job := .idle }
-                  (l2Keep c s.mem.sampled n w)).1
-                (by simp only [step, hjob, hl1, hg, Bool.false_eq_true, if_false, hp])
-                (by rw [hsp.2]; exact hh) hsp.1 ?_ ?_
-              · rw [hm.1]
-                show max s.mem.keepMax (l2Keep c s.mem.sampled n w).toNat ≤ max s.mem.keepMax (allowed c s (.evL2 n w))
-                simp only [allowed, hl1]; omega
-              · intro _; rw [hm.2]; exact raiseForPrune_ge _ _
+          by_cases hstale : (c.l2Clamps && decide (h < n.toNat)) = true
+          · exact unchanged (by simp only [step, hjob, hl1, hh, hstale, if_true])
+          · have hnh : n.toNat ≤ h := by
+              rcases hcl with hcl | ⟨h', h1, h2⟩
+              · simp only [hcl, Bool.true_and, decide_eq_true_eq] at hstale; omega
+              · rw [hh] at h1; cases h1; exact h2
+            have hstale' : (c.l2Clamps && decide (h < n.toNat)) = false := by simpa using hstale
+            cases hg : l2Guard c l1 n with
+            | true => exact unchanged (by simp only [step, hjob, hl1, hh, hstale', Bool.false_eq_true, if_false, hg, if_true])
+            | false =>
+              by_cases hp : s.mem.pending + 1 < c.l2PerPrune
+              · exact keepH ⟨s.db, { s.mem with pending := s.mem.pending + 1 }, s.job, s.cutoff⟩
+                  (by simp only [step, hjob, hl1, hh, hstale', hg, Bool.false_eq_true, if_false, hp, if_true]) hh
+                  (IA.congr rfl rfl rfl rfl) (by show s.mem.keepMax ≤ _; omega) (fun _ => Nat.le_refl _)
+                  (fun _ _ A => age_keep (Nat.le_refl _) rfl (Nat.le_refl _) A)
+              · have hb := l2Keep_bound c s.mem.sampled l1 n (decide (s.cutoff ≤ c.ts n.toNat)) hg
+                have I0 : InvA c { s with mem := { s.mem with pending := 0 }, job := .idle } h a :=
+                  IA.congr rfl hjob.symm rfl rfl
+                have hsp := inv_startPrune (s := { s with mem := { s.mem with pending := 0 }, job := .idle })
+                  hh I0 rfl (l2Keep c s.mem.sampled n (decide (s.cutoff ≤ c.ts n.toNat))) (by omega) hseed
+                have hm := startPrune_mem { s with mem := { s.mem with pending := 0 }, job := .idle }
+                  (l2Keep c s.mem.sampled n (decide (s.cutoff ≤ c.ts n.toNat)))
+                refine keepH (startPrune { s with mem := { s.mem with pending := 0 }, job := .idle }
+                    (l2Keep c s.mem.sampled n (decide (s.cutoff ≤ c.ts n.toNat)))).1
+                  (by simp only [step, hjob, hl1, hh, hstale', hg, Bool.false_eq_true, if_false, hp])
+                  (by rw [hsp.2]; exact hh) hsp.1 ?_ ?_ ?_
+                · rw [hm.1]
+                  show max s.mem.keepMax (l2Keep c s.mem.sampled n _).toNat ≤ max s.mem.keepMax (allowed c s (.evL2 n))
+                  simp only [allowed, hl1]; omega
+                · intro _; rw [hm.2.1]; exact raiseForPrune_ge _ _
+                · intro hmo hma A
+                  refine age_startPrune (s := { s with mem := { s.mem with pending := 0 }, job := .idle }) hh I0 _ ?_ A
+                  intro m hmk
+                  by_cases hw : s.cutoff ≤ c.ts n.toNat
+                  · -- the event's block is young: the time floor applies
+                    have : (l2Keep c s.mem.sampled n (decide (s.cutoff ≤ c.ts n.toNat))).toNat ≤ s.mem.sampled.toNat := by
+                      simp only [hw, decide_true]; exact l2Keep_minAge c s.mem.sampled n hma
+                    exact A.2 m (by omega)
+                  · -- deep catch-up: the event's block is itself older than the minimum age, and so is every block below it
+                    have := hmo m n.toNat (by omega)
+                    show c.ts m < s.cutoff
+                    omega
     | flush k =>
       cases hjob : s.job with
       | idle => exact unchanged (by simp only [step, hjob])
@@ -1066,19 +1316,22 @@ theorem step_facts {c : Cfg} {s : St} (op : Op) (I : Inv c s) (L : Legal c s op)
           cases hfix : c.fixed with
           | false =>
             have hstep : (step c s (.flush k)).1 =
-                (⟨s.db.del (flushDel c st en cu (cu + k) fi), s.mem, .run st en (cu + k) false⟩ : St) := by
+                (⟨s.db.del (flushDel c st en cu (cu + k) fi), s.mem, .run st en (cu + k) false, s.cutoff⟩ : St) := by
               simp only [step, hjob, hk, if_true, hr, hfix, Bool.false_eq_true, if_false]
-            exact keepH ⟨s.db.del (flushDel c st en cu (cu + k) fi), s.mem, .run st en (cu + k) false⟩ hstep hh
+            exact keepH ⟨s.db.del (flushDel c st en cu (cu + k) fi), s.mem, .run st en (cu + k) false, s.cutoff⟩ hstep hh
               (inv_flush_orig k IA hjob hfix hk) (by show s.mem.keepMax ≤ _; omega)
-              (fun _ => Nat.le_refl _)
+              (fun _ => Nat.le_refl _) (fun _ _ A => age_keep (Nat.le_refl _) rfl (Nat.le_refl _) A)
           | true =>
             have hstep : (step c s (.flush k)).1 =
-                (⟨(s.db.del (flushDel c st en cu (cu + k) fi)).pruneAgg (cu + k), s.mem, .run st en (cu + k) false⟩ : St) := by
+                (⟨(s.db.del (flushDel c st en cu (cu + k) fi)).pruneAgg (cu + k), s.mem, .run st en (cu + k) false, s.cutoff⟩ : St) := by
               simp only [step, hjob, hk, if_true, hr, hfix]
             have hI := inv_flush_fixed k IA hjob hfix hk
             have ha := hacu.2 hfix
+            have j3 : en ≤ s.mem.keepMax := hj.2.2.1
             exact facts_some hh IA (by rw [hstep]; exact hh) (by rw [hstep]; exact hI) (by omega) (by omega)
               (by rw [hstep]; show s.mem.keepMax ≤ _; omega) (fun _ => by rw [hstep]; exact Nat.le_refl _)
+              (by rw [hstep]; exact fun hm hma => age_keep (s := s)
+                    (by show max (cu + k) s.mem.keepMax ≤ max a s.mem.keepMax; omega) rfl (Nat.le_refl _) (AG hm hma))
         · exact unchanged (by simp only [step, hjob, hk, if_false])
     | finish =>
       cases hjob : s.job with
@@ -1087,64 +1340,65 @@ theorem step_facts {c : Cfg} {s : St} (op : Op) (I : Inv c s) (L : Legal c s op)
         cases fi with
         | true => exact unchanged (by simp only [step, hjob, if_true])
         | false =>
+          have hj := IA.jobWf
+          unfold jobOk at hj
+          rw [hjob] at hj
+          obtain ⟨j1, j2, j3, _, j5⟩ := hj
+          have hcu : cu < 2 ^ 64 := by have := IA.keepLe; have := IA.hlt; omega
+          -- the new sample `max(sampled, cur)`: every block below `cur ≤ keepMax` is old
+          have hsamp : ∀ (s' : St) (a' : Nat), s'.mem.sampled = umax s.mem.sampled (UInt64.ofNat cu) →
+              s'.mem.keepMax = s.mem.keepMax → s'.cutoff = s.cutoff → a' ≤ max a s.mem.keepMax →
+              AgeA c s a → AgeA c s' a' := by
+            intro s' a' e1 e2 e3 e4 A
+            refine ⟨fun n hn => ?_, fun i hi => ?_⟩
+            · rw [e3]; rw [e2] at hn; exact A.1 n (by omega)
+            · rw [e3]; rw [e1, umax_toNat, ofNat_toNat_of_lt cu hcu] at hi
+              by_cases h1 : i < s.mem.sampled.toNat
+              · exact A.2 i h1
+              · exact A.1 i (by omega)
           cases hfix : c.fixed with
           | true =>
-            exact keepH ⟨s.db, { s.mem with sampled := umax s.mem.sampled (UInt64.ofNat cu) }, .idle⟩
+            exact keepH ⟨s.db, { s.mem with sampled := umax s.mem.sampled (UInt64.ofNat cu) }, .idle, s.cutoff⟩
               (by simp only [step, hjob, Bool.false_eq_true, if_false, hfix, if_true]) hh
-              (inv_leave _ IA hjob (Or.inl hfix) (Nat.le_refl _) IA.m1 IA.m2 IA.m3)
+              ((inv_leave s.mem IA hjob (Or.inl hfix) (Nat.le_refl _) IA.m1 IA.m2 IA.m3).congr rfl rfl rfl rfl)
               (by show s.mem.keepMax ≤ _; omega) (fun _ => Nat.le_refl _)
+              (fun _ _ A => hsamp _ a rfl rfl rfl (by omega) A)
           | false =>
-            have hj := IA.jobWf
-            unfold jobOk at hj
-            rw [hjob] at hj
-            simp only [hfix] at hj
-            obtain ⟨j1, j2, j3, _, j5⟩ := hj
+            simp only [hfix] at j5
             have j5 : a = st := by simpa using j5
             let m' : Mem := { s.mem with sampled := umax s.mem.sampled (UInt64.ofNat cu) }
-            have hstep : (step c s .finish).1 = (⟨(s.db.del (rangeDel cu)).pruneAgg cu, m', .idle⟩ : St) := by
+            have hstep : (step c s .finish).1 = (⟨(s.db.del (rangeDel cu)).pruneAgg cu, m', .idle, s.cutoff⟩ : St) := by
               simp only [step, hjob, Bool.false_eq_true, if_false, hfix]; rfl
             have hI := inv_finish_orig m' IA hjob hfix rfl rfl
-            exact facts_some hh IA (by rw [hstep]; exact hh) (by rw [hstep]; exact hI) (by omega) (by omega)
+            exact facts_some hh IA (by rw [hstep]; exact hh) (by rw [hstep]; exact hI.congr rfl rfl rfl rfl) (by omega) (by omega)
               (by rw [hstep]; show s.mem.keepMax ≤ _; omega) (fun _ => by rw [hstep]; exact Nat.le_refl _)
+              (by rw [hstep]; exact fun hm hma =>
+                    hsamp ⟨(s.db.del (rangeDel cu)).pruneAgg cu, m', .idle, s.cutoff⟩ cu rfl rfl rfl (by omega) (AG hm hma))
     | fail =>
       cases hjob : s.job with
       | idle => exact unchanged (by simp only [step, hjob])
       | run st en cu fi =>
         have hI : interruptible c s.job := L
         rw [hjob] at hI
-        exact keepH ⟨s.db, s.mem, .idle⟩ (by simp only [step, hjob]) hh
-          (inv_leave _ IA hjob hI (Nat.le_refl _) IA.m1 IA.m2 IA.m3) (by show s.mem.keepMax ≤ _; omega)
-          (fun _ => Nat.le_refl _)
+        exact keepH ⟨s.db, s.mem, .idle, s.cutoff⟩ (by simp only [step, hjob]) hh
+          ((inv_leave s.mem IA hjob hI (Nat.le_refl _) IA.m1 IA.m2 IA.m3).congr rfl rfl rfl rfl) (by show s.mem.keepMax ≤ _; omega)
+          (fun _ => Nat.le_refl _) (fun _ _ A => age_keep (Nat.le_refl _) rfl (Nat.le_refl _) A)
     | crash seed =>
-      have hI : interruptible c s.job := L
-      obtain ⟨r1, r2, r3⟩ := restartMem_ok hh IA seed
-      cases hjob : s.job with
-      | idle =>
-        exact keepH ⟨s.db, restartMem s.db seed, .idle⟩ rfl hh
-          (inv_leave_idle _ IA hjob (by omega) (fun hne => ⟨r2 hne, by omega⟩) (by omega) (by omega))
-          (by show (restartMem s.db seed).keepMax ≤ _; omega) (fun hne => absurd rfl (hne.1 seed))
-      | run st en cu fi =>
-        rw [hjob] at hI
-        exact keepH ⟨s.db, restartMem s.db seed, .idle⟩ rfl hh
-          (inv_leave _ IA hjob hI (by omega) (fun hne => ⟨r2 hne, by omega⟩) (by omega) (by omega))
-          (by show (restartMem s.db seed).keepMax ≤ _; omega) (fun hne => absurd rfl (hne.1 seed))
-
-    | migrate mf u =>
+      exact restarted seed rfl L (fun hne => hne.1 seed rfl)
+    | migrate u =>
       obtain ⟨hjob, hu, hL⟩ := L
-      have restartOnly : (step c s (.migrate mf u)).1 = ⟨s.db, restartMem s.db true, s.job⟩ → StepFacts c s (.migrate mf u) := by
-        intro e
-        obtain ⟨r1, r2, r3⟩ := restartMem_ok hh IA true
-        exact keepH _ e hh
-          (by rw [hjob]; exact inv_leave_idle _ IA hjob (by omega) (fun hne => ⟨r2 hne, by omega⟩) (by omega) (by omega))
-          (by show (restartMem s.db true).keepMax ≤ _; omega) (fun hne => absurd rfl (hne.2 mf u))
+      have hInt : interruptible c s.job := by rw [hjob]; trivial
+      have restartOnly : (step c s (.migrate u)).1 = ⟨s.db, restartMem c s.db s.cutoff true, .idle, s.cutoff⟩ →
+          StepFacts c s (.migrate u) := fun e =>
+        restarted true e hInt (fun hne => hne.2 u rfl)
       cases hl1 : s.db.l1 with
       | none => exact unchanged (by simp only [step, hjob, hh, hl1])
       | some l1 =>
-        cases hk : migKeep c h l1 mf with
+        cases hk : migKeep c h l1 (migMinAgeFloor c h l1 s.cutoff) with
         | none => exact restartOnly (by simp only [step, hjob, hh, hl1, hk])
         | some keep =>
           obtain ⟨hpos, hfl⟩ := hL h l1 keep hh hl1 hk
-          have hb := migKeep_bound c h IA.hlt l1 mf keep hk
+          have hb := migKeep_bound c h IA.hlt l1 _ keep hk
           rw [lo_of_inv hh IA] at hfl
           by_cases hz : keep = 0
           · have hz' : keep.toNat = 0 := by rw [hz]; rfl
@@ -1160,24 +1414,33 @@ theorem step_facts {c : Cfg} {s : St} (op : Op) (I : Inv c s) (L : Legal c s op)
               | false => rfl
               | true => simp [hu rfl]
             have hr := migrate_reads_ok IA hjob keep.toNat hkpos (by omega) (by omega)
-            have hstep : (step c s (.migrate mf u)).1 =
-                ⟨migrateDb s.db keep.toNat h, restartMem (migrateDb s.db keep.toNat h) true, .idle⟩ := by
+            have hstep : (step c s (.migrate u)).1 =
+                ⟨migrateDb s.db keep.toNat h, restartMem c (migrateDb s.db keep.toNat h) s.cutoff true, .idle, s.cutoff⟩ := by
               simp only [step, hjob, hh, hl1, hk, hz, if_false, hu', Bool.false_eq_true, hr, if_true]
             have I1 := inv_migrate IA hjob keep.toNat hkpos (by omega) (by omega)
-            have hh1 : (⟨migrateDb s.db keep.toNat h, ({} : Mem), Job.idle⟩ : St).db.height = some h := hh
-            have hrm : (restartMem (migrateDb s.db keep.toNat h) true).keepMax = 0 ∧
-                ((restartMem (migrateDb s.db keep.toNat h) true).floorState ≠ 0 →
-                  keep.toNat ≤ (restartMem (migrateDb s.db keep.toNat h) true).floorState.toNat) ∧
-                (restartMem (migrateDb s.db keep.toNat h) true).floorState.toNat ≤ max keep.toNat 1 :=
-              restartMem_ok hh1 I1 true
+            have hh1 : (⟨migrateDb s.db keep.toNat h, ({} : Mem), Job.idle, 0⟩ : St).db.height = some h := hh
+            have hrm : (restartMem c (migrateDb s.db keep.toNat h) s.cutoff true).keepMax = 0 ∧
+                ((restartMem c (migrateDb s.db keep.toNat h) s.cutoff true).floorState ≠ 0 →
+                  keep.toNat ≤ (restartMem c (migrateDb s.db keep.toNat h) s.cutoff true).floorState.toNat) ∧
+                (restartMem c (migrateDb s.db keep.toNat h) s.cutoff true).floorState.toNat ≤ max keep.toNat 1 :=
+              restartMem_ok hh1 I1 s.cutoff true
             obtain ⟨r1, r2, r3⟩ := hrm
             have hk0 : (({} : Mem)).keepMax = 0 := rfl
-            have I2 := inv_leave_idle (restartMem (migrateDb s.db keep.toNat h) true) I1 rfl (by omega)
+            have I2 := inv_leave_idle (restartMem c (migrateDb s.db keep.toNat h) s.cutoff true) I1 rfl (by omega)
               (fun hne => ⟨r2 hne, by omega⟩) (by omega) (by omega)
-            exact facts_some hh IA (by rw [hstep]; exact hh) (by rw [hstep]; exact I2) (by omega)
+            have I2' : InvA c ⟨migrateDb s.db keep.toNat h, restartMem c (migrateDb s.db keep.toNat h) s.cutoff true, .idle, s.cutoff⟩ h keep.toNat :=
+              I2.congr rfl rfl rfl rfl
+            refine facts_some hh IA (by rw [hstep]; exact hh) (by rw [hstep]; exact I2') (by omega)
               (by simp only [allowed, hh, hl1]; omega)
-              (by rw [hstep]; show (restartMem _ true).keepMax ≤ _; omega)
-              (fun hne => absurd rfl (hne.2 mf u))
+              (by rw [hstep]; show (restartMem c _ _ true).keepMax ≤ _; omega)
+              (fun hne => absurd rfl (hne.2 u)) ?_
+            rw [hstep]
+            intro hm hma
+            have hold := migKeep_age hm hma h IA.hlt l1 keep s.cutoff hk
+            refine ⟨fun n hn => hold n ?_, ?_⟩
+            · have : (restartMem c (migrateDb s.db keep.toNat h) s.cutoff true).keepMax = 0 := r1
+              simp only [this] at hn; omega
+            · exact seedSample_age (s := ⟨migrateDb s.db keep.toNat h, ({} : Mem), Job.idle, 0⟩) hm hh1 I1 s.cutoff hold
 
 theorem inv_step {c : Cfg} {s : St} (op : Op) (I : Inv c s) (L : Legal c s op) :
     Inv c (step c s op).1 := (step_facts op I L).inv
